@@ -87,4 +87,5 @@ def main() -> None:
                "each case = a pair of workloads or a hash seed")
 
 if __name__ == "__main__":
-    main()
+    from common import run_main
+    run_main(main, "C12")
